@@ -15,8 +15,9 @@ StP == StOf(arr', raw', view', flt', paused', ret')
 MInitLog == InitLog /\ PrintT(ToJson([init |-> St, obs |-> [view |-> SpecView], entries |-> LogEntries, filters |-> LogFilters]))
 MLog(i) == /\ Len(arr) < MaxLog /\ Log(LogEntries[i])
            /\ PrintT(ToJson([src |-> St, act |-> [n |-> "Log", e |-> i], dst |-> StP,
-                             obs |-> [view |-> SpecViewOf(arr', ret', flt'), res |-> LogResult(LogEntries[i]), hasx |-> XInForce(arr', flt')]]))
-MSetFilter(i) == /\ LogFilters[i] # flt /\ SetFilter(LogFilters[i])
+                             obs |-> [view |-> SpecViewOf(arr', ret', flt'), res |-> LogResult(LogEntries[i]), hasx |-> XInForce(arr', flt'),
+                                      raises |-> (~paused /\ Raises(flt, LogEntries[i]))]]))
+MSetFilter(i) == /\ LogFilters[i] # flt /\ SetFilterLegal(LogFilters[i]) /\ SetFilter(LogFilters[i])
                  /\ PrintT(ToJson([src |-> St, act |-> [n |-> "SetFilter", f |-> i], dst |-> StP,
                                    obs |-> [view |-> SpecViewOf(arr', ret', flt'), res |-> WellFormed(LogFilters[i]), hasx |-> XInForce(arr', flt')]]))
 MSetPaused(b) == /\ b # paused /\ SetPaused(b)
